@@ -13,6 +13,19 @@ Theorem C02_script_roundtrip :
 Proof. exact script_roundtrip. Qed.
 Print Assumptions C02_script_roundtrip.
 
+(* 1b. Parsing loses nothing: distinct accepted byte strings (outside the class) have distinct parses, and the
+   serialisation has exactly the input's length. *)
+Theorem C02_parse_injective :
+  forall b1 b2 s, from_bytes b1 = Ok s -> from_bytes b2 = Ok s ->
+                  truncated_tail b1 = false -> truncated_tail b2 = false -> b1 = b2.
+Proof. exact parse_injective. Qed.
+Print Assumptions C02_parse_injective.
+
+Theorem C02_roundtrip_length :
+  forall bs s, from_bytes bs = Ok s -> truncated_tail bs = false -> length (to_bytes s) = length bs.
+Proof. exact roundtrip_length. Qed.
+Print Assumptions C02_roundtrip_length.
+
 (* 3. Acceptance: a byte string is accepted exactly when the independent tokenizer reads it completely (no
    truncated OP_PUSHDATAn, no unknown opcode byte) and its conditionals are closed; otherwise it is rejected
    with an error — never a panic.  (The truncated-direct-push class is the recorded finding.) *)
